@@ -4,7 +4,7 @@ from .. import common, gen, oracle, modelio, pipefam, pool, cli
 
 RULE = ("(a) library stages: each generated input (1-6 chromosomes incl. prefix families Chr1/Chr10, names used on both group axes; group names equal up to case for the inputs that also go through the CLI) is run "
         "with the merge jobs in sorted / reversed / shuffled order and with several seeds of Python's random (the summation tasks are "
-        "shuffled); (b) the real CLI with -n 1/2/4/16, --single_process, PYTHONHASHSEED 0/1/random, under 16 busy-loop processes; all "
+        "shuffled); (b) the real CLI with -n 1/2/4/16, --single_process, PYTHONHASHSEED 0/1/random, under 16 busy-loop processes; a large input (hundreds of genes per chromosome) also with -n 48; all "
         "runs of one input must exit 0 and give identical file names, axis labels (in order) and values; the first run is compared with the "
         "model; (c) one input with hundreds of genes through the CLI while the MAIN process alone is stopped (SIGSTOP) for 3 s (thorough: 3-6 s) as soon as a density worker has begun to write, compared with the undisturbed run; non-trivial = >= 2 chromosomes and a same-group overlap; distinct = (input, configuration). OS scheduling itself cannot be "
         "exhibited by the model: part (b) is exploration")
@@ -218,11 +218,34 @@ def run(chk):
             nv += 1
             chk.violation("CLI run with the main process stopped for %.0f s during the density stage differs from the undisturbed run (or fails)" % (3.0 + k),
                           {"stalled_big_files": {"stall": 3.0 + k, "rng": "stall"}, "failures": fails[:3]})
+    # (d) the same large input with far more workers than chromosomes (any share of a resource that is divided by the number of
+    # workers becomes small) and with one worker
+    for npr in ([48] if chk.tier == "quick" else [1, 48, 96]):
+        rep = cli.run_case_cli(big, nproc=npr, timeout=400)
+        chk.cov["evaluations"] += 1
+        chk.count("cli_runs_large_input_n%d" % npr)
+        fails = []
+        if ref["rc"] != 0 or rep["rc"] != 0:
+            fails.append({"kind": "cli_exit_status", "n2": ref["rc"], "n%d" % npr: rep["rc"], "log": rep["log"][-500:]})
+        else:
+            d = diff_runs(summarize(ref), summarize(rep))
+            if d:
+                fails.append(d)
+        if fails:
+            nv += 1
+            chk.violation("CLI run of a large input with -n %d differs from the run with -n 2 (or fails)" % npr, {"many_workers_big_files": {"nproc": npr, "rng": "stall"}, "failures": fails[:3]})
     chk.sample({"chromosomes": sorted(set(g["chrom"] for g in cases[0]["genes"])), "library_configurations": lc[:3], "cli_configurations": cli_configs(chk.tier)[:2]})
     return chk.finish(rule=RULE)
 
 
 def replay(chk, rp):
+    if "many_workers_big_files" in rp:
+        big = gen.gen_big_files(chk.rng("stall"))
+        ref = cli.run_case_cli(big, nproc=2, timeout=300)
+        rep = cli.run_case_cli(big, nproc=rp["many_workers_big_files"]["nproc"], timeout=400)
+        bad = ref["rc"] != 0 or rep["rc"] != 0 or bool(diff_runs(summarize(ref), summarize(rep)))
+        print(json.dumps({"n2_exit": ref["rc"], "many_workers_exit": rep["rc"], "differs": bad}, indent=1))
+        return 1 if bad else 0
     if "stalled_big_files" in rp:
         big = gen.gen_big_files(chk.rng("stall"))
         ref = cli.run_case_cli(big, nproc=2, timeout=300)
